@@ -36,7 +36,7 @@ type outcome struct {
 	Calls    []*callObs    `json:"calls,omitempty"`    // family ctl: what was observed of every call
 	Gauge    float64       `json:"gauge,omitempty"`    // family runend: the listener's gauge of active connections after Run returned (polled for 3 s)
 	HaveGauge bool         `json:"have_gauge,omitempty"`
-	SignalAt time.Duration `json:"signal_at,omitempty"` // family runend: when the second signal was first sent
+	SignalAt time.Duration `json:"signal_at,omitempty"` // family runend: when a signal of the configured set was first sent
 	shutCalls int
 }
 
@@ -107,6 +107,7 @@ func runCase(c *Case) (*outcome, error) {
 
 	// --- initiate ---
 	runDone := make(chan struct{})
+	var sigDone chan struct{}
 	switch {
 	case len(c.Calls) > 0:
 		// a history of control calls (ctl.go): the listener is closed, then the calls are made
@@ -118,8 +119,13 @@ func runCase(c *Case) (*outcome, error) {
 		cr.log.Add("X", 0)
 		cr.hp.Cancel()
 		cr.dialMu.Unlock()
-		if c.End == "signal" {
-			go cr.secondSignal(runDone)
+		if steps := c.deliveries(); len(steps) > 0 {
+			// signals to this process while the proxy drains (G:<number> is logged before the first delivery of each)
+			sigDone = make(chan struct{})
+			go func() {
+				defer close(sigDone)
+				deliverSignals(steps, cr.sigSet, runDone, func(sig int) { cr.log.Add("G", sig) })
+			}()
 		}
 	case c.Op == "close":
 		if c.ListenerFirst {
@@ -172,6 +178,10 @@ func runCase(c *Case) (*outcome, error) {
 		case <-time.After(retLimit):
 			cr.note("Run did not return within %v of the cancellation (shutdown timeout %v)", retLimit, timeout)
 			out.Result = "run:hang"
+			close(runDone)
+		}
+		if sigDone != nil {
+			<-sigDone // no signal of this case may reach the next one
 		}
 		cr.setKnown()
 		cr.setListenerClosed()
@@ -298,8 +308,9 @@ func runCase(c *Case) (*outcome, error) {
 		}
 	}
 	if c.Kind == "a" {
-		// configuration marker: ShutdownSignals is not empty (the default, or SIGUSR1 in the family runend)
-		evs = append([]*Event{{Op: "SG"}}, evs...)
+		// configuration marker: the SET ShutdownSignals (the defaults, SIGUSR1 in the family runend, the case's own —
+		// possibly empty — set in the signal matrix)
+		evs = append([]*Event{{Op: "SG", R: joinInts(cr.sigSet)}}, evs...)
 	}
 	out.History = evs
 	if e := find(evs, callOp); e != nil {
@@ -310,7 +321,7 @@ func runCase(c *Case) (*outcome, error) {
 	} else if e := find(evs, "XR"); e != nil {
 		out.RetAt = e.T
 	}
-	if e := find(evs, "Z"); e != nil && c.Kind == "a" {
+	if e := firstConfigured(evs, cr.sigSet); e != nil && c.Kind == "a" {
 		out.SignalAt = e.T
 	}
 	out.Foreign = int(cr.foreign.Load())
@@ -401,6 +412,7 @@ func evaluate(ctx *core.Ctx, c *Case, out *outcome) {
 	}
 	if c.Family == "runend" && out.HaveRet {
 		ctx.Count("runend/" + c.End + "/" + strings.SplitN(out.Result, ":", 2)[0])
+		ctx.Count("runend/signals/a/" + c.sigLabel() + "/ended-by-" + c.End)
 		if out.HaveGauge && out.Gauge != 0 {
 			ctx.SpecFail("the proxy's count of open connections always returns to zero", "", doc, h,
 				fmt.Sprintf("Run returned (drain ended by %s); 3s later the listener's gauge of active connections is still %v", c.End, out.Gauge))
@@ -510,6 +522,9 @@ func Run(ctx *core.Ctx) {
 		"(nil => every accepted socket already closed by the proxy; error => the call's own ctx.Err(), not before that context was done), a last Close and a last Shutdown appended; " +
 		"on rig a the drain of Run ended by a second shutdown signal (SIGUSR1 to the child process), by the shutdown timeout, or by itself, with connections that do not drain: " +
 		"after Run returned every accepted socket closed, the listener's active-connections gauge 0, nothing served any more; " +
+		"plus the signal matrix on rigs a and s: configured ShutdownSignals {none, {SIGUSR1}, {SIGUSR1, SIGUSR2}} x signals delivered to the hosting process during the drain " +
+		"{none, one of the set, SIGWINCH / SIGURG / SIGCHLD / an unconfigured SIGUSR, several, unconfigured then configured} with a 20 s shutdown timeout and work that outlasts the deliveries " +
+		"(a signal outside the set ends nothing, one of the set ends the drain); " +
 		"non-trivial = at least one connection is in a phase other than idle when the shutdown is placed; distinct = distinct case scripts")
 	for _, raw := range core.LoadCorpus(ctx.Root, "C11") {
 		Replay(ctx, raw)
@@ -575,8 +590,21 @@ func Run(ctx *core.Ctx) {
 	for i := 0; i < ctx.N(12, 144); i++ {
 		send("runend", genRunEnd(ctx.Rng.Sub(), i))
 	}
+	// (the race batches are drawn here and queued last: the cases of a seed stay what they were)
+	var micro []*Case
 	for i := 0; i < ctx.N(32, 400); i++ {
-		send("micro", &Case{Kind: "c", Trials: 250, MicroSeed: ctx.Rng.U64()})
+		micro = append(micro, &Case{Kind: "c", Trials: 250, MicroSeed: ctx.Rng.U64()})
+	}
+	// the signal matrix (ctl.go): configured ShutdownSignals {none, {USR1}, {USR1, USR2}} x signals delivered to the
+	// hosting process during the drain {none, configured, unconfigured, several} on rig a and on the API server (rig s)
+	for i := 0; i < ctx.N(14, 168); i++ {
+		send("runend", genRunSig(ctx.Rng.Sub(), i))
+	}
+	for i := 0; i < ctx.N(6, 48); i++ {
+		send("runend", genServerSig(ctx.Rng.Sub(), i))
+	}
+	for _, c := range micro {
+		send("micro", c)
 	}
 	close(jobs)
 	wg.Wait()
